@@ -159,9 +159,10 @@ func makeEngineOrig(c Case) (eo *engineOrig, skip string) {
 		return nil, "coercion.New"
 	}
 	eo = &engineOrig{ws: ws, close: func() { vault.Close(ctx) }}
+	made := eo // the skip paths return a nil eo: the deferred clean-up must not go through the named result
 	defer func() {
 		if skip != "" {
-			eo.close()
+			made.close()
 			eo = nil
 		}
 	}()
@@ -207,7 +208,9 @@ func makeEngineOrig(c Case) (eo *engineOrig, skip string) {
 			}
 			eo.source = got
 		}
-		if eo.source.ID == uuid.Nil || len(eo.source.Blocks) != len(c.Plan.Blocks) {
+		// only a plan that came back from the Workstream must carry its id: whether Submit also writes the ids into the
+		// caller's object is an implementation detail (soundness audit FA-1 / NM-1)
+		if (eo.source != p && eo.source.ID == uuid.Nil) || len(eo.source.Blocks) != len(c.Plan.Blocks) {
 			return nil, "read-back-incomplete" // storage defects are C13's business
 		}
 		return eo, ""
